@@ -65,6 +65,8 @@ def build(chk):
     chk.add(ob('O2.setitem_scalar_slice', 'h_setitem_scalar_slice', 'a[start:stop:step] = v writes exactly the elements a Python list slice selects (CPython PySlice_AdjustIndices semantics), nothing else, never out of bounds',
                bounds=B + '; start, stop in [-9,9], step in [-6,6]\\{0}', unwind=2 * N + 2, timeout=400))
     chk.add(ob('O2.setitem_scalar_int', 'h_setitem_scalar_int', 'a[i] = v writes exactly one element or raises IndexError', bounds=B + '; all 2^64 index values'))
+    chk.add(ob('O2.setitem_vector_mask', 'h_setitem_vector_mask', 'a[mask] = b: stores b[i] where mask[i] (equal lengths) or the elements of b in order (b as long as the mask selects); a masked reference, a mask of another length or a source of neither length raises and writes nothing', bounds=B + '; mask and source arrays direct, lengths 0..%d, arbitrary contents' % N, timeout=600))
+    chk.add(ob('O2.setitem_vector_slice_masked', 'h_setitem_vector_slice_masked', 'view[slice] = b on a masked reference (of a possibly strided view): assigns element-wise into exactly the selected slots of the backing store when the lengths match, else raises and writes nothing', bounds=B + ' (masked view, arbitrary increasing mask indices); slice start/stop in -5..5, step -3..3; source length 0..%d' % N, timeout=600))
     chk.add(ob('O2.setitem_vector_slice', 'h_setitem_vector_slice', 'a[slice] = b assigns element-wise when the lengths match, else raises and writes nothing', bounds=B + ' (direct view); source length 0..%d' % N, timeout=400))
     chk.add(ob('O2.setitem_scalar_mask', 'h_setitem_scalar_mask', 'a[mask] = v writes exactly where the mask is non-zero; mask length mismatch raises', bounds=B + ' (direct view); mask length 0..%d' % N))
     for nm, d in (('index_store', 'operator[] (non-const)'), ('direct_store', 'direct_index'), ('setitem_scalar', 'setitem_scalar'), ('setitem_vector', 'setitem_vector'), ('setitem_scalar_mask', 'setitem_scalar_mask'),
